@@ -248,9 +248,9 @@ def gen_case(rng, t, big=False):
             nw = max(nw, 2)
         sizes = {"x": nx, "y": ny, "out": no, "work": nw}
     elif t == "SignedOutMultiplier":
-        nx, ny, no = sz(1, 3), sz(1, 3), sz(2, 4 if big else 3)
+        nx, ny, no = sz(2, 3), sz(2, 3), sz(2, 4 if big else 3)
         while nx + ny + no > 7:
-            nx, ny, no = sz(1, 3), sz(1, 3), sz(2, 3)
+            nx, ny, no = sz(2, 3), sz(2, 3), sz(2, 3)
         c["zeroed"] = rng.random() < 0.5
         nw = rng.choice([2, 2 + no, 2 + no + 1]) if c["zeroed"] else 2 * no + 1 + rng.choice([0, 0, 1])
         sizes = {"x": nx, "y": ny, "out": no, "work": nw}
@@ -265,7 +265,7 @@ def gen_case(rng, t, big=False):
         need = min(n + 1, m) if c["zeroed"] else m
         sizes = {"x": n, "out": m, "work": need + rng.choice([0, 0, 1, 2])}
     elif t == "SignedOutSquare":
-        n, m = sz(1, 3), sz(1, 4)
+        n, m = sz(2, 3), sz(1, 4)
         c["zeroed"] = rng.random() < 0.5
         need = min(n, m) if c["zeroed"] else m
         sizes = {"x": n, "out": m, "work": need + rng.choice([0, 0, 1, 2])}
@@ -309,9 +309,9 @@ CORPUS = [
     {"t": "QubitSum", "regs": {"a": [0], "b": [1], "c": [2]}, "order": list(range(3)), "matrix": True},
     {"t": "Adder", "k": 5, "mod": 15, "regs": {"x": [0, 1, 2, 3], "work": [4, 5]}, "order": list(range(6)), "matrix": True},
     {"t": "PhaseAdder", "k": 5, "mod": 7, "regs": {"x": [0, 1, 2, 3], "work": [4]}, "order": list(range(5))},
-    {"t": "OutAdder", "mod": 7, "regs": {"x": [0, 1, 2], "y": [3, 4, 5], "out": [7, 8, 9], "work": [6, 10]}, "order": list(range(11))},
+    {"t": "OutAdder", "mod": 7, "regs": {"x": [0, 1], "y": [3, 4], "out": [7, 8, 2], "work": [6, 5]}, "order": list(range(9))},
     {"t": "Multiplier", "k": 4, "mod": 7, "regs": {"x": [0, 1, 2], "work": [3, 4, 5, 6, 7]}, "order": list(range(8))},
-    {"t": "OutMultiplier", "mod": 8, "regs": {"x": [0, 1], "y": [2, 3], "out": [4, 5, 6], "work": [7, 8, 9, 10, 11]}, "order": list(range(12))},
+    {"t": "OutMultiplier", "mod": 8, "regs": {"x": [0, 1], "y": [2], "out": [4, 5, 6], "work": [7, 8, 9, 10, 3]}, "order": list(range(11))},
     {"t": "SignedOutMultiplier", "zeroed": True, "regs": {"x": [0, 1], "y": [2, 3], "out": [4, 5, 6], "work": [7, 8]}, "order": list(range(9))},
     {"t": "ModExp", "k": 2, "mod": 7, "regs": {"x": [0, 1], "out": [2, 3, 4], "work": [5, 6, 7, 8, 9]}, "order": list(range(10))},
     {"t": "OutSquare", "regs": {"x": [0, 1], "out": [2, 3, 4], "work": [5, 6, 7]}, "order": list(range(8)), "matrix": True},
@@ -407,13 +407,35 @@ def tag(c):
     return ""
 
 
+def fail_class(c, d, got, expect):
+    """coarse classification of the failing inputs (only used to make violation keys stable and informative)"""
+    if c["t"] != "SignedOutMultiplier" or c.get("ctrl"):
+        return ""
+    nx, ny, k = (len(c["regs"][r]) for r in ("x", "y", "out"))
+    cls = set()
+    for v, g, e in zip(d, got, expect):
+        if g == e:
+            continue
+        sx, sy, sz = signed(v[0], nx), signed(v[1], ny), signed(v[2], k)
+        if not (-(1 << (k - 1)) <= sz + sx * sy < (1 << (k - 1))):
+            cls.add("overflow")
+        elif sx * sy == 0 and (sx < 0 or sy < 0):
+            cls.add("negzero")
+        else:
+            cls.add("other")
+    return "+".join(sorted(cls))
+
+
 def case_key(c):
     d = {k: v for k, v in c.items() if k not in ("inputs", "matrix")}
     return json.dumps(d, sort_keys=True)
 
 
 def run(ctx):
+    import time as _t
+    t0 = _t.time()
     ctx.coq_props()
+    t_props = _t.time() - t0
     rng = ctx.rng
     quick = ctx.tier == "quick"
     per = 1 if quick else 5
@@ -422,7 +444,7 @@ def run(ctx):
         for _ in range(per * WEIGHT.get(t, 1)):
             for _try in range(50):
                 c = gen_case(rng, t, big=not quick)
-                if len(c["order"]) <= (12 if quick else 14) and len(domain(c)) <= (256 if quick else 512):
+                if len(c["order"]) <= (12 if quick else 14) and len(domain(c)) << len(c["order"]) <= (1 << (16 if quick else 19)):
                     break
             cases.append(c)
     doms = []
@@ -444,6 +466,7 @@ def run(ctx):
         for idx, res in ex.map(work, [ch for ch in chunks if ch]):
             for i, r in zip(idx, res):
                 obs[i] = r
+    t_impl = _t.time() - t0 - t_props
     hist = {"cases": len(cases), "basis_inputs": 0, "dq_runs": 0, "rules_run": {}, "classical_rules": 0, "nonclassical_rules": 0,
             "matrix_checked": 0, "syntactic_model_ties": 0, "controlled": 0, "with_modulus": 0, "dynamic_work_wires": 0,
             "per_template": {}}
@@ -468,9 +491,10 @@ def run(ctx):
                               what=f"{t} rule {rname} does not execute on default.qubit: {ent['why'][:200]}")
             else:
                 hist["dq_runs"] += len(d)
+                ent["cls"] = fail_class(c, d, ent["dq"], expect)
                 for v, got, exp in zip(d, ent["dq"], expect):
                     if got != exp:
-                        ctx.violation(f"dq:{t}[{tag(c)}]/{rname}:{key0}",
+                        ctx.violation(f"dq:{t}[{tag(c) or ent['cls']}]/{rname}:{key0}",
                                       {"case": {k: x for k, x in c.items() if k != "inputs"}, "rule": rname,
                                        "registers": names, "input_values": v, "expected_values": oracle(c, v),
                                        "expected_basis_index": exp, "observed_basis_index": got},
@@ -489,14 +513,14 @@ def run(ctx):
                     ins = glist([glist(v, gz) for v in d])
                     terms.append(f"{{| c_spec := {sp}; c_regs := {regs}; c_nw := {gnat(ent['nw'])}; "
                                  f"c_gates := {glist(ent['gates'], g_gate)}; c_model := {mdl}; c_inputs := {ins} |}}")
-                    term_meta.append((c, rname, key0))
+                    term_meta.append((c, rname, key0, ent.get("cls", "")))
             elif rname != "<device>":
                 hist["nonclassical_rules"] += 1
         if o.get("mat") is not None:
             hist["matrix_checked"] += 1
             for v, got, exp in zip(d, o["mat"], expect):
                 if got != exp:
-                    ctx.violation(f"matrix:{t}[{tag(c)}]:{key0}", {"case": {k: x for k, x in c.items() if k != "inputs"},
+                    ctx.violation(f"matrix:{t}[{tag(c) or fail_class(c, d, o['mat'], expect)}]:{key0}", {"case": {k: x for k, x in c.items() if k != "inputs"},
                                   "input_values": v, "expected_basis_index": exp, "matrix_column_index": got},
                                   what=f"qp.matrix({t}) column for input {dict(zip(names, v))} is not the documented basis vector / differs from the decomposition")
                     break
@@ -505,13 +529,14 @@ def run(ctx):
         if bad:
             bad_sem = set(ctx.coq_eval_cases("sem", "From PLV Require Import Disc.ArithModel.", [terms[i] for i in bad], "check_sem_only", chunk=40))
         for j, i in enumerate(bad):
-            c, rname, key0 = term_meta[i]
+            c, rname, key0, cls = term_meta[i]
             kind = "sem" if j in bad_sem else "syn"
-            ctx.violation(f"corr-{kind}:{c['t']}[{tag(c)}]/{rname}:{key0}", {"case": {k: x for k, x in c.items() if k != "inputs"}, "rule": rname,
+            ctx.violation(f"corr-{kind}:{c['t']}[{tag(c) or cls}]/{rname}:{key0}", {"case": {k: x for k, x in c.items() if k != "inputs"}, "rule": rname,
                           "kind": kind},
                           what=(f"{c['t']} rule {rname}: exported classical gate list, simulated in Coq, does not compute the documented function / leaves work wires dirty"
                                 if kind == "sem" else
                                 f"{c['t']} rule {rname}: real gate list differs from the transcribed model circuit (model no longer describes the code)"))
+    ctx.notes.append(f"stage seconds: props {t_props:.1f}, implementation runs {t_impl:.1f}, coq simulation {_t.time() - t0 - t_props - t_impl:.1f}")
     ctx.coverage.update({"evaluations": hist["dq_runs"] + hist["basis_inputs"], "distinct_nontrivial": len({case_key(c) for c in cases}),
                          "rule": "every template of the property x random sizes (<=4 qubit registers), moduli, constants, coprime multipliers, "
                                  "polynomials, work-wire counts, zeroed flags, wire layouts (random permutation, optional idle wire), controlled variants; "
